@@ -34,9 +34,17 @@ Theorem C18_executed_kill_is_forever : forall BUF ops id i hk w,
   w_killed w = true -> poll BUF (fst (run_srv_ops BUF id i hk w ops)) = Server.PErr EShutdown.
 Proof. exact executed_kill_is_forever. Qed.
 
+(* second clause, over executed histories: a history in which the switch is never signalled runs identically --
+   same worlds, same observations -- with and without a kill switch registered *)
+Theorem C18_kill_switch_inert : forall BUF ops id i w,
+  Forall (fun op => decode_sop op <> SKill) ops ->
+  run_srv_ops BUF id i true w ops = run_srv_ops BUF id i false w ops.
+Proof. exact kill_switch_inert. Qed.
+
 Print Assumptions C18_enabled.
 Print Assumptions C18_wins.
 Print Assumptions C18_poll_reports_shutdown.
 Print Assumptions C18_inert.
 Print Assumptions C18_events_preserve_flag.
 Print Assumptions C18_executed_kill_is_forever.
+Print Assumptions C18_kill_switch_inert.
